@@ -97,6 +97,18 @@ class Ctx:
             self._paths[fn.id] = p
         return p
 
+    def cpaths(self, fn):
+        """canonical paths (std Option/Result/bool combinators unfolded into path splits, closures inlined)"""
+        if isinstance(fn, str):
+            fn = self.fn(fn)
+        self.fns_analysed.add(fn.id)
+        key = ("canon", fn.id)
+        p = self._paths.get(key)
+        if p is None:
+            p = sym.walk(fn, self.F, canon=True)
+            self._paths[key] = p
+        return p
+
     def trait_impl_fns(self, trait_item):
         fs = self.F.trait_method_impls(trait_item)
         for f in fs:
@@ -219,6 +231,18 @@ def run_property(prop, tier, seed, facts_dir=None, do_extract=True, quiet=False,
     }
     if ctx:
         cov.update(ctx.extra)
+        rr = getattr(ctx.F, "reference_report", None) or {}
+        cov["reference_equivalence"] = {
+            "what": "functions whose body differs textually from the reference tree (/verif/reference: the tree on which every rule was hand-confirmed) "
+                    "but has the same canonical summary (same conditions, effect sequence, results) are analysed through the reference body; everything else as it is",
+            "reference_available": bool(rr.get("available")),
+            "bodies_changed_but_canonically_equivalent": len(rr.get("equivalent", [])),
+            "bodies_changed_and_different": len(rr.get("different", [])),
+            "functions_not_in_reference": len(rr.get("new", [])),
+            "equivalent_sample": sorted(rr.get("equivalent", []))[:10],
+            "different_sample": sorted(rr.get("different", []))[:10],
+            "note": rr.get("note"),
+        }
     if level == "model_checking" and ctx and "states" in ctx.extra:
         pass
     ev = {
